@@ -92,8 +92,13 @@ def build_line(lid, engine, level, variant, empty_none):
     blank = nc - 1
     zcol = chars.index("z")
     y = 10 * int(lid[1:])
-    line = TextLine(id=lid, baseline=np.array([[0, y], [50, y]]), polygon=np.array([[0, y - 5], [50, y - 5], [50, y + 2], [0, y + 2]]),
-                    heights=[5, 2], characters=list(chars))
+    # same ids, but every engine saw the line slightly differently (its own baseline, outline, heights): "geometry is never altered"
+    # is only observable when the engines' geometries differ
+    g = engine - 1
+    line = TextLine(id=lid, baseline=np.array([[0, y + g], [50 + g, y]]),
+                    polygon=np.array([[0, y - 5 - g], [50 + g, y - 5], [50 + g, y + 2], [0, y + 2 + g]]),
+                    heights=[5 + g, 2 + 0.5 * g], characters=list(chars))
+    line.index = 10 * engine + int(lid[1:])
     # the value the line carried before the merge (e.g. the conf attribute of an imported PAGE XML): a sentinel, low on even lines
     # and HIGHER than any engine's mean confidence on odd lines - it must never act as a threshold nor survive a positive maximum
     line.transcription_confidence = (0.111 if int(lid[1:]) % 2 == 0 else 0.961) + 0.001 * engine
@@ -154,7 +159,7 @@ def build_layout(engine, levels, variants, empty_none):
 
 
 def snapshot_frame(p):
-    return [p.id, tuple(p.page_size)] + [[r.id, r.polygon.tolist(), [(l.id, l.baseline.tolist(), l.polygon.tolist(), list(l.heights))
+    return [p.id, tuple(p.page_size)] + [[r.id, r.polygon.tolist(), [(l.id, l.baseline.tolist(), l.polygon.tolist(), list(l.heights), l.index)
                                                                        for l in r.lines]] for r in p.regions]
 
 
